@@ -328,6 +328,19 @@ Theorem C10_conc_crash_safe :
 Proof. exact conc_crash_safe_src. Qed.
 Print Assumptions C10_conc_crash_safe.
 
+(* ... and the tag mapping under concurrency: at every point of every schedule, a reference name in
+   index.json was there when the calls started or is set by one of the concurrent Tag calls. *)
+Theorem C10_conc_tags_origin :
+  forall (H : list N -> N) (shuffle : nat -> list entry -> list entry),
+    (forall c l e, In e (shuffle c l) <-> In e l) ->
+    forall (h : list hop) (calls : list ccall) (is : list nat),
+      let s := runc H shuffle src_inplace src_unlink_first true h init in
+      let c := sched shuffle (start H s calls) is in
+      forall l r n, read_index (cfs c) = Some l -> tag_of l r n ->
+        (exists l0, read_index (sfs s) = Some l0 /\ tag_of l0 r n) \/ In (CTag n r) calls.
+Proof. exact conc_tags_origin_src. Qed.
+Print Assumptions C10_conc_tags_origin.
+
 (* the order "publish the blob, then enter it into the resolver" is needed: a thread that tags
    first lets saveIndex write an entry for a blob that is not there yet *)
 Theorem C10_conc_refuted_tag_before_publish :
